@@ -1010,6 +1010,21 @@ def syntax_variants(base: str, kind: str) -> list[tuple[str, str]]:
     a(("leading-text", "garbage " + base))
     a(("leading-ksr-in-comment", "<!-- <KSR old> -->\n" + base))
     a(("leading-ksrx", "<KSRX/>\n" + base))
+    # --- a start tag WRAPPED over lines (XML allows it; this reader does not): nothing after the line break may be silently dropped
+    root_tag = re.search(r"<KSR [^>]*>", base)
+    if root_tag is not None:
+        t0 = root_tag.group(0)
+        first_sp = t0.index(" ", t0.index('"'))  # after the first attribute
+        a(("wrapped-root-tag-second-attribute-line", base.replace(t0, t0[:first_sp] + "\n    " + t0[first_sp + 1 :], 1)))
+        a(("wrapped-root-tag-extra-attribute", base.replace(t0, t0[:-1] + '\n    timestamp="2030-01-01T00:00:00+00:00">', 1)))
+        a(("wrapped-root-tag-garbage-line", base.replace(t0, t0[:-1] + "\n    this is <not> an attribute & never was>", 1)))
+        a(("wrapped-root-tag-garbage-line-2", base.replace(t0, t0[:-1] + "\n    garbage garbage>", 1)))
+        a(("wrapped-root-tag-crlf", base.replace(t0, t0[:first_sp] + "\r\n" + t0[first_sp + 1 :], 1)))
+    btag = re.search(r"<(RequestBundle|ResponseBundle) [^>]*>", base)
+    if btag is not None:
+        t1 = btag.group(0)
+        a(("wrapped-bundle-tag-garbage-line", base.replace(t1, t1[:-1] + "\n  garbage>", 1)))
+        a(("wrapped-bundle-tag-second-id", base.replace(t1, t1[:-1] + '\n  id="another-id">', 1)))
     # --- UNTERMINATED constructs before the root element: whatever scans the header for the root must still come to an end
     xmldecl = '<?xml version="1.0" encoding="UTF-8"?>\n'
     root_on = base[base.index("<KSR") :]
